@@ -23,6 +23,7 @@ import (
 	"io"
 	"iter"
 	"math"
+	"os"
 	"path"
 	"path/filepath"
 	"runtime"
@@ -131,10 +132,20 @@ var _ locations.StorageLocation = (*c14MemLoc)(nil)
 // c14Gate parks the write of every job snapshot file until the harness releases it
 type c14Gate struct {
 	locations.StorageLocation
-	mu     sync.Mutex
-	parked []*c14Parked
-	notify chan struct{}
-	dead   chan struct{}
+	mu       sync.Mutex
+	parked   []*c14Parked
+	notify   chan struct{}
+	dead     chan struct{}
+	removes  atomic.Int64
+	spCopies atomic.Int64
+}
+
+func (l *c14Gate) Copy(src, dst string) error {
+	err := l.StorageLocation.Copy(src, dst)
+	if err == nil && strings.HasSuffix(dst, "job.savepoint") {
+		l.spCopies.Add(1)
+	}
+	return err
 }
 
 func (l *c14Gate) Write(p string, data io.Reader) (string, error) {
@@ -158,6 +169,19 @@ func (l *c14Gate) Write(p string, data io.Reader) (string, error) {
 		}
 	}
 	return l.StorageLocation.Write(p, strings.NewReader(string(b)))
+}
+
+// Remove is the store's cleanup of obsolete job snapshots (its own goroutine): performed at once, and counted so
+// that the harness can wait for it
+func (l *c14Gate) Remove(paths ...string) error {
+	select {
+	case <-l.dead:
+		return fmt.Errorf("storage abandoned")
+	default:
+	}
+	err := l.StorageLocation.Remove(paths...)
+	l.removes.Add(1)
+	return err
 }
 
 func (l *c14Gate) parkedCount() int {
@@ -353,41 +377,47 @@ type c14Key struct {
 }
 
 type c14Run struct {
-	nOps     int
-	mem      int
-	raw      locations.StorageLocation           // the storage, ungated
-	loc      *c14Gate                            // what the store writes through
-	rel      func(p string) string               // listed path or URI -> path relative to the location root ("/work/op0/x")
-	uriOf    func(rel string) string             // relative path -> URI as the DKV file system names it
-	dkvFS    func(dir string) storage.FileSystem // DKV file system rooted at a relative directory
-	store    *snapshots.Store
-	events   chan string
-	errs     chan error
-	split    *c14Splitter
-	dbs      []*dkv.DB
-	keep     []any
-	pending  uint64
-	hasPend  bool
-	acked    map[int]bool
-	srcAcked bool
-	frozen   bool
-	wiped    bool
-	dumped   bool
-	docURI   map[int]string
-	held     map[int][]uint64
-	uris     map[string]bool // every DKV URI ever seen (for decoding the artifact listing)
-	maxID    uint64
-	atCkpt   map[c14Key]string
-	original map[c14Key]string
-	created  map[uint64]*snapshotpb.JobCheckpoint
-	loaded   *snapshotpb.JobCheckpoint
-	scratchN int
-	lastRef  string
-	l0       int
-	lastH    map[int]recovery.CheckpointHandle
-	gen      map[int]int
-	hasRef   bool
-	released bool
+	nOps            int
+	mem             int
+	raw             locations.StorageLocation           // the storage, ungated
+	loc             *c14Gate                            // what the store writes through
+	rel             func(p string) string               // listed path or URI -> path relative to the location root ("/work/op0/x")
+	uriOf           func(rel string) string             // relative path -> URI as the DKV file system names it
+	dkvFS           func(dir string) storage.FileSystem // DKV file system rooted at a relative directory
+	store           *snapshots.Store
+	events          chan string
+	errs            chan error
+	split           *c14Splitter
+	dbs             []*dkv.DB
+	keep            []any
+	pending         uint64
+	hasPend         bool
+	acked           map[int]bool
+	srcAcked        bool
+	frozen          bool
+	wiped           bool
+	dumped          bool
+	docURI          map[int]string
+	held            map[int][]uint64
+	uris            map[string]bool // every DKV URI ever seen (for decoding the artifact listing)
+	maxID           uint64
+	atCkpt          map[c14Key]string
+	original        map[c14Key]string
+	created         map[uint64]*snapshotpb.JobCheckpoint
+	loaded          *snapshotpb.JobCheckpoint
+	scratchN        int
+	lastRef         string
+	l0              int
+	lastH           map[int]recovery.CheckpointHandle
+	gen             map[int]int
+	hasRef          bool
+	released        bool
+	restoredListing string
+	root            string            // cfg=local: the temp directory, shown as /L in every output
+	completed       []uint64          // ids the current store holds as completed
+	fresh           bool              // nothing touched the operators' files since the last successful load
+	cleanLoad       bool              // that load started from a wiped working storage
+	spCkpt          map[c14Key]string // per created savepoint: the operators' scans at their checkpoints
 }
 
 func c14Header(h string) (nOps, mem, l0 int, cfg string) {
@@ -615,9 +645,21 @@ func (r *c14Run) artListing() string {
 }
 
 func (r *c14Run) step(op string) string {
+	out := r.step1(op)
+	if r.root != "" {
+		out = strings.ReplaceAll(out, r.root, "/L")
+	}
+	return out
+}
+
+func (r *c14Run) step1(op string) string {
 	f := strings.Fields(op)
 	if len(f) == 0 {
 		return "bad-op"
+	}
+	switch f[0] {
+	case "put", "del", "opck", "redeploy", "retain", "lose", "wipe", "junk":
+		r.fresh = false
 	}
 	wasDumped, wasReleased := r.dumped, r.released
 	r.dumped, r.released = false, false
@@ -834,13 +876,13 @@ func (r *c14Run) step(op string) string {
 		}
 		return "ok"
 	case "work":
-		if !r.wiped {
-			return "notwiped"
-		}
 		if r.loaded == nil {
 			return "noload" // leftovers of a failed restore are not compared
 		}
-		return r.workListing()
+		if !(r.fresh && r.cleanLoad) {
+			return "notclean"
+		}
+		return r.restoredListing
 	case "art":
 		return r.artListing()
 	case "release":
@@ -864,35 +906,59 @@ func (r *c14Run) step(op string) string {
 		r.loc.mu.Unlock()
 		id, _ := c14JobPathID(c.path)
 		r.released = true
+		// the store removes the job snapshots of older completed checkpoints from its own goroutine: wait for it
+		expectCleanup, removesBefore := false, r.loc.removes.Load()
+		var kept []uint64
+		for _, old := range r.completed {
+			if old < id {
+				expectCleanup = true
+			} else {
+				kept = append(kept, old)
+			}
+		}
+		r.completed = append([]uint64{id}, kept...)
+		spCopiesBefore := r.loc.spCopies.Load()
 		close(c.rel)
+		res := ""
 		select {
 		case <-r.events:
-			if b, err := r.raw.Read(r.uriOf(c14SavepointJobPath(id))); err == nil {
-				var ck snapshotpb.JobCheckpoint
-				if unmarshalProto(b, &ck) == nil {
-					r.created[id] = &ck
-					r.countShape(&ck)
-				}
-				return fmt.Sprintf("published %d savepoint", id)
-			}
-			return fmt.Sprintf("published %d", id)
+			res = fmt.Sprintf("published %d", id)
 		case <-r.errs:
-			return fmt.Sprintf("savepoint-error %d", id)
+			res = fmt.Sprintf("savepoint-error %d", id)
 		case <-time.After(10 * time.Second):
 			return "timeout"
 		}
-	case "wipe":
-		if !r.wiped {
-			// what the original working storage gives for every savepoint's handles
-			for id, ck := range r.created {
-				for _, o := range ck.GetOperatorCheckpoints() {
-					i, _ := strconv.Atoi(strings.TrimPrefix(o.OperatorId, "op"))
-					r.original[c14Key{id, i}] = r.openScan(recovery.CheckpointHandle{CheckpointID: o.CheckpointId, URI: o.DkvFileUri})
+		if expectCleanup {
+			deadline := time.Now().Add(5 * time.Second)
+			for r.loc.removes.Load() == removesBefore && time.Now().Before(deadline) {
+				time.Sleep(200 * time.Microsecond)
+			}
+			if r.loc.removes.Load() == removesBefore {
+				res += " cleanup-missing"
+			}
+		}
+		// an artifact was completed during this publication (its job.savepoint was copied)
+		if strings.HasPrefix(res, "published") && r.loc.spCopies.Load() > spCopiesBefore {
+			if b, err := r.raw.Read(r.uriOf(c14SavepointJobPath(id))); err == nil {
+				var ck snapshotpb.JobCheckpoint
+				if unmarshalProto(b, &ck) == nil && ck.Id == id {
+					r.created[id] = &ck
+					r.countShape(&ck)
+					// what the original working storage gives for the savepoint's handles, and what the operators held
+					for _, o := range ck.GetOperatorCheckpoints() {
+						i, _ := strconv.Atoi(strings.TrimPrefix(o.OperatorId, "op"))
+						r.original[c14Key{id, i}] = r.openScan(recovery.CheckpointHandle{CheckpointID: o.CheckpointId, URI: o.DkvFileUri})
+						r.spCkpt[c14Key{id, i}] = r.atCkpt[c14Key{id, i}]
+					}
+					return res + " savepoint"
 				}
 			}
-			close(r.loc.dead)
 		}
+		return res
+	case "wipe":
+		r.abandon()
 		r.wiped = true
+		r.loaded = nil
 		for _, e := range r.files() {
 			if !strings.HasPrefix(e[0], "/savepoints/") {
 				r.raw.Remove(e[1])
@@ -913,28 +979,62 @@ func (r *c14Run) step(op string) string {
 		r.raw.Write(strings.TrimPrefix(r.rel(r.docURI[i]), "/"), strings.NewReader("{not a document"))
 		return "junk " + r.docURI[i]
 	case "load":
-		if !r.wiped {
-			return "notwiped"
-		}
+		// a (re)start of the job from a savepoint URI: after a wipe, or as a roll-back while the job was running
 		if len(f) != 2 {
 			return "bad-op"
 		}
 		id, _ := strconv.ParseUint(f[1], 10, 64)
+		wasWiped := r.wiped
+		r.abandon()
 		// the URI the job reports for the savepoint (Store.SavepointURIForID = fileStore.URI of this path)
 		uri, err := r.raw.URI(filepath.Join("savepoints", c14Seg(id), "job.savepoint"))
 		if err != nil {
 			uri = filepath.Join("savepoints", c14Seg(id), "job.savepoint")
 		}
-		st := snapshots.NewStore(&snapshots.NewStoreParams{FileStore: r.raw, SavepointsPath: "savepoints", CheckpointsPath: "checkpoints", SavepointURI: uri})
+		r.newStore(uri)
 		r.loaded = nil
-		if err := st.LoadCheckpoint(); err != nil {
+		r.wiped = true // no live job unless the load succeeds
+		if err := r.store.LoadCheckpoint(); err != nil {
 			return "load-error"
 		}
-		ck := st.CurrentCheckpoint()
+		ck := r.store.CurrentCheckpoint()
 		if ck == nil {
 			return "load-error"
 		}
 		r.loaded = ck
+		r.restoredListing = r.workListing() // before the operators start writing into their new directories
+		r.wiped, r.frozen, r.hasPend, r.acked, r.srcAcked = false, false, false, map[int]bool{}, false
+		r.completed = []uint64{ck.Id}
+		r.maxID = max(r.maxID, ck.Id)
+		// the operators are deployed in new directories from the loaded handles
+		for _, o := range ck.GetOperatorCheckpoints() {
+			i, err := strconv.Atoi(strings.TrimPrefix(o.OperatorId, "op"))
+			if err != nil || i < 0 || i >= r.nOps {
+				continue
+			}
+			h := recovery.CheckpointHandle{CheckpointID: o.CheckpointId, URI: o.DkvFileUri}
+			r.gen[i]++
+			db := r.newDB(fmt.Sprintf("/work/op%dg%d", i, r.gen[i]))
+			func() {
+				defer func() {
+					if p := recover(); p != nil {
+						db = nil
+					}
+				}()
+				if err := db.Start([]recovery.CheckpointHandle{h}); err != nil {
+					db = nil
+				}
+			}()
+			if db == nil {
+				r.wiped = true
+				return "deploy-failed " + o.OperatorId
+			}
+			r.keep = append(r.keep, r.dbs[i])
+			r.dbs[i] = db
+			r.waitTasks(db)
+			r.held[i], r.lastH[i], r.docURI[i] = []uint64{h.CheckpointID}, h, h.URI
+		}
+		r.fresh, r.cleanLoad = true, wasWiped
 		return "loaded " + c14RenderJob(ck)
 	case "open":
 		if r.loaded == nil {
@@ -942,6 +1042,9 @@ func (r *c14Run) step(op string) string {
 		}
 		if len(f) != 2 {
 			return "bad-op"
+		}
+		if !r.fresh {
+			return "stale"
 		}
 		for _, o := range r.loaded.GetOperatorCheckpoints() {
 			if o.OperatorId != "op"+f[1] {
@@ -959,8 +1062,8 @@ func (r *c14Run) step(op string) string {
 			if got != r.original[key] {
 				return "restored-state-differs-from-original-storage got=[" + c14Short(got) + "] want=[" + c14Short(r.original[key]) + "]"
 			}
-			if got != r.atCkpt[key] {
-				return "restored-state-differs-from-state-at-checkpoint got=[" + c14Short(got) + "] want=[" + c14Short(r.atCkpt[key]) + "]"
+			if got != r.spCkpt[key] {
+				return "restored-state-differs-from-state-at-checkpoint got=[" + c14Short(got) + "] want=[" + c14Short(r.spCkpt[key]) + "]"
 			}
 			return "ok"
 		}
@@ -1042,6 +1145,30 @@ func (r *c14Run) countShape(ck *snapshotpb.JobCheckpoint) {
 	}
 }
 
+// abandon the current job: parked publications fail, nothing of it writes any more
+func (r *c14Run) abandon() {
+	if r.loc != nil {
+		select {
+		case <-r.loc.dead:
+		default:
+			close(r.loc.dead)
+		}
+	}
+	for _, db := range r.dbs {
+		r.waitTasks(db)
+	}
+}
+
+// newStore starts a snapshot store (a job) on the storage, through a fresh gate
+func (r *c14Run) newStore(savepointURI string) {
+	r.loc = &c14Gate{StorageLocation: r.raw, notify: make(chan struct{}, 1), dead: make(chan struct{})}
+	r.events, r.errs = make(chan string, 64), make(chan error, 64)
+	r.store = snapshots.NewStore(&snapshots.NewStoreParams{FileStore: r.loc, SavepointsPath: "savepoints", CheckpointsPath: "checkpoints",
+		CheckpointEvents: r.events, SavepointURI: savepointURI})
+	r.store.VerifSetErrChanC14(r.errs)
+	r.store.RegisterSourceSplitter(r.split)
+}
+
 func (r *c14Run) newDB(dir string) *dkv.DB {
 	db := dkv.New(dkv.DBOptions{FileSystem: r.dkvFS(dir), MemTableSize: uint64(r.mem), TargetFileSize: 256, L0TableNumCompactionTrigger: r.l0})
 	comp := db.VerifCompactor()
@@ -1057,7 +1184,7 @@ func c14Impl(c lib.Case) []string {
 	defer debug.SetGCPercent(debug.SetGCPercent(-1))
 	r := &c14Run{nOps: nOps, mem: mem, l0: l0, lastH: map[int]recovery.CheckpointHandle{}, gen: map[int]int{}, events: make(chan string, 64), errs: make(chan error, 64), split: &c14Splitter{},
 		acked: map[int]bool{}, docURI: map[int]string{}, held: map[int][]uint64{}, uris: map[string]bool{},
-		atCkpt: map[c14Key]string{}, original: map[c14Key]string{}, created: map[uint64]*snapshotpb.JobCheckpoint{}}
+		spCkpt: map[c14Key]string{}, atCkpt: map[c14Key]string{}, original: map[c14Key]string{}, created: map[uint64]*snapshotpb.JobCheckpoint{}}
 	if cfg == "s3" {
 		// the S3 configuration: S3Location + dkv S3FileSystem over the repository's in-memory S3 service
 		svc := &c14LockedS3{inner: objstore.NewMemoryS3Service()}
@@ -1069,6 +1196,23 @@ func c14Impl(c lib.Case) []string {
 		r.rel = func(p string) string { return "/" + strings.TrimPrefix(strings.TrimPrefix(p, "s3://bucket/job"), "/") }
 		r.uriOf = func(rel string) string { return "s3://bucket/job" + rel }
 		r.dkvFS = func(dir string) storage.FileSystem { return storage.NewS3FileSystem(svc, "bucket", "job"+dir) }
+	} else if cfg == "local" {
+		// the local configuration: the real LocalDirectory + dkv LocalFilesystem in a temp directory
+		root, err := os.MkdirTemp("", "c14-")
+		if err != nil {
+			panic(err)
+		}
+		defer os.RemoveAll(root)
+		r.root = root
+		r.raw = locations.NewLocalDirectory(root)
+		r.rel = func(p string) string {
+			if strings.HasPrefix(p, root) {
+				return strings.TrimPrefix(p, root)
+			}
+			return "/" + strings.TrimPrefix(p, "/")
+		}
+		r.uriOf = func(rel string) string { return root + rel }
+		r.dkvFS = func(dir string) storage.FileSystem { return storage.NewLocalFilesystem(root + dir) }
 	} else {
 		mfs := storage.NewMemoryFilesystem()
 		r.raw = &c14MemLoc{mfs: mfs}
@@ -1076,11 +1220,7 @@ func c14Impl(c lib.Case) []string {
 		r.uriOf = func(rel string) string { return "memory://" + rel }
 		r.dkvFS = func(dir string) storage.FileSystem { return mfs.WithWorkingDir(dir) }
 	}
-	r.loc = &c14Gate{StorageLocation: r.raw, notify: make(chan struct{}, 1), dead: make(chan struct{})}
-	r.store = snapshots.NewStore(&snapshots.NewStoreParams{FileStore: r.loc, SavepointsPath: "savepoints", CheckpointsPath: "checkpoints",
-		CheckpointEvents: r.events})
-	r.store.VerifSetErrChanC14(r.errs)
-	r.store.RegisterSourceSplitter(r.split)
+	r.newStore("")
 	for i := 0; i < nOps; i++ {
 		db := r.newDB(fmt.Sprintf("/work/op%d", i))
 		if err := db.Start(nil); err != nil {
@@ -1097,6 +1237,11 @@ func c14Impl(c lib.Case) []string {
 		for _, db := range r.dbs {
 			r.waitTasks(db)
 		}
+		for _, k := range r.keep {
+			if db, ok := k.(*dkv.DB); ok {
+				r.waitTasks(db)
+			}
+		}
 		runtime.KeepAlive(r.keep)
 		runtime.KeepAlive(r.dbs)
 	}()
@@ -1109,7 +1254,80 @@ func c14Impl(c lib.Case) []string {
 
 // ---- generator ----
 
+func c14PickCfg(r *lib.Rng) string {
+	switch r.Intn(24) {
+	case 0, 1, 2, 3, 4, 5:
+		return "s3"
+	case 6:
+		return "local" // real directories, fsync and cp: slower, so fewer
+	}
+	return "mem"
+}
+
+// c14GenRollback: savepoint M, later savepoint N, the job is rolled back to M (with or without losing the working
+// storage) and runs on until it has published a checkpoint with id N again; then savepoint N is used.
+func c14GenRollback(r *lib.Rng) lib.Case {
+	n := r.Range(1, 2)
+	mem := lib.Pick(r, []int{250, 100000, 100000})
+	var ops []string
+	keys := []string{"61", "62", "6263", "63", "6461", "65"}
+	writes := func(cnt int) {
+		for j := 0; j < cnt; j++ {
+			ops = append(ops, fmt.Sprintf("put %d %s %s", r.Intn(n), lib.Pick(r, keys), lib.Hex(r.Bytes(r.Range(1, 30)))))
+		}
+	}
+	cycle := func(first string) {
+		ops = append(ops, first)
+		for o := 0; o < n; o++ {
+			ops = append(ops, fmt.Sprintf("opck %d", o))
+		}
+		ops = append(ops, "srcack", "dump", "release 0")
+	}
+	opens := func() {
+		for o := 0; o < n; o++ {
+			ops = append(ops, fmt.Sprintf("open %d", o))
+		}
+	}
+	writes(r.Range(1, 12))
+	cycle("sp") // M = 1
+	k := r.Intn(3)
+	for j := 0; j < k; j++ {
+		writes(r.Intn(5))
+		cycle("ckpt")
+	}
+	writes(r.Range(1, 8))
+	cycle("sp") // N = 2 + k
+	nID := 2 + k
+	if r.Chance(1, 3) {
+		ops = append(ops, "wipe")
+	}
+	ops = append(ops, "load 1")
+	opens()
+	for id := 2; id <= nID; id++ {
+		writes(r.Range(1, 6))
+		cycle("ckpt")
+	}
+	if r.Chance(1, 2) {
+		ops = append(ops, "wipe")
+	}
+	ops = append(ops, fmt.Sprintf("load %d", nID))
+	opens()
+	if r.Chance(1, 2) {
+		ops = append(ops, "load 1")
+		opens()
+	}
+	ops = append(ops, "work", "art")
+	cfg := c14PickCfg(r)
+	if r.Chance(1, 6) {
+		cfg = "local"
+	}
+	return lib.Case{Header: fmt.Sprintf("M C14 ops=%d mem=%d l0=2 cfg=%s", n, mem, cfg), Ops: ops, Tags: []string{"rollback", "cfg-" + cfg}}
+}
+
 func c14Gen(r *lib.Rng, tier string, i int) lib.Case {
+	if r.Chance(1, 5) {
+		return c14GenRollback(r)
+	}
 	n := r.Range(1, 3)
 	mem := lib.Pick(r, []int{120, 250, 500, 100000})
 	var ops []string
@@ -1260,16 +1478,29 @@ func c14Gen(r *lib.Rng, tier string, i int) lib.Case {
 	if r.Chance(1, 12) {
 		ops = append(ops, fmt.Sprintf("load %d", spID+1+r.Intn(2)))
 	}
-	ops = append(ops, fmt.Sprintf("load %d", spID))
-	for o := 0; o < n; o++ {
-		ops = append(ops, fmt.Sprintf("open %d", o))
+	loadAndOpen := func() {
+		ops = append(ops, fmt.Sprintf("load %d", spID))
+		for o := 0; o < n; o++ {
+			ops = append(ops, fmt.Sprintf("open %d", o))
+		}
+	}
+	loadAndOpen()
+	if r.Chance(1, 3) {
+		// the restored job runs on, publishes a checkpoint (cleanup of the snapshot it loaded), and the same
+		// savepoint URI is used again
+		tags = append(tags, "restart-twice")
+		writes(r.Intn(6))
+		ops = append(ops, "ckpt")
+		ops = append(ops, shuffledAcks(nil, true)...)
+		ops = append(ops, "dump", "release 0")
+		if r.Chance(1, 2) {
+			ops = append(ops, "wipe")
+		}
+		loadAndOpen()
 	}
 	// mechanism observations last: a divergence there must not hide a property-level one
 	ops = append(ops, "work", "art")
-	cfg := "mem"
-	if r.Chance(1, 3) {
-		cfg = "s3"
-	}
+	cfg := c14PickCfg(r)
 	tags = append(tags, "cfg-"+cfg)
 	if redeployed {
 		tags = append(tags, "redeployed")
@@ -1311,6 +1542,19 @@ func c14Fixed(tier string) []lib.Case {
 			"put 0 61 " + big, "put 0 62 " + big, "put 1 63 " + big, "put 1 66 " + big, "ckpt", "opck 1", "opck 0", "srcack", "dump", "release 0",
 			"redeploy 0", "redeploy 1", "put 0 64 " + big, "put 0 65 " + big, "put 1 67 " + big, "put 1 63 " + big + "02", "sp", "opck 0", "opck 1", "srcack",
 			"dump", "release 0", "intact", "wipe", "load 2", "open 0", "open 1", "work", "art"}},
+		// seeded C14-3: savepoint 2, roll back to savepoint 1 (working storage kept), the job publishes checkpoint 2 again;
+		// savepoint 2 must still hold its own snapshot (real LocalDirectory: Copy must give an independent file)
+		{Header: "M C14 ops=1 mem=100000 cfg=local", Tags: []string{"rollback", "seeded-C14-3"}, Ops: []string{
+			"put 0 61 01", "sp", "opck 0", "srcack", "dump", "release 0", "put 0 61 02", "sp", "opck 0", "srcack", "dump", "release 0",
+			"load 1", "open 0", "put 0 61 03", "put 0 62 04", "ckpt", "opck 0", "srcack", "dump", "release 0", "load 2", "open 0", "art"}},
+		// seeded C14-4: the job restored from savepoint 1 publishes its first checkpoint (the snapshot it loaded becomes
+		// obsolete and is cleaned up); savepoint 1 must still be there for a second start
+		{Header: "M C14 ops=1 mem=100000 cfg=mem", Tags: []string{"restart-twice", "seeded-C14-4"}, Ops: []string{
+			"put 0 61 01", "sp", "opck 0", "srcack", "dump", "release 0", "wipe", "load 1", "open 0", "put 0 62 02", "ckpt", "opck 0", "srcack",
+			"dump", "release 0", "load 1", "open 0", "wipe", "load 1", "open 0", "work", "art"}},
+		{Header: "M C14 ops=2 mem=250 cfg=local", Tags: []string{"restart-twice", "seeded-C14-4"}, Ops: []string{
+			"put 0 61 01", "put 1 62 " + big, "put 1 63 " + big, "sp", "opck 1", "opck 0", "srcack", "dump", "release 0", "intact", "wipe", "load 1",
+			"open 0", "open 1", "put 0 62 02", "ckpt", "opck 0", "opck 1", "srcack", "dump", "release 0", "wipe", "load 1", "open 0", "open 1", "work", "art"}},
 		// a savepoint request folds into the pending checkpoint
 		{Header: "M C14 ops=2 mem=250", Tags: []string{"fold"}, Ops: []string{
 			"put 0 61 01", "put 1 62 02", "ckpt", "opck 1", "sp", "sp", "ckpt", "put 0 61 03", "opck 0", "srcack",
@@ -1326,7 +1570,7 @@ func propC14() *lib.Prop {
 		FeedImpl: true,
 		NumCases: func(tier string) int {
 			if tier == "thorough" {
-				return 20000
+				return 12000
 			}
 			return 1500
 		},
